@@ -93,6 +93,42 @@ def guarded(judge):
     return wrapped
 
 
+
+# ---------------------------------------------------------------------------------------------------------
+# rivals: other sampling sets of the same class, with far-away options, constructed and used AFTER the sampler under
+# test was built and BEFORE it is drawn from (a problem usually holds several samplers of one class; what one of them
+# declares must not depend on its siblings - a seeded change kept the ranges in a class-level dictionary)
+
+RIVALS = {
+    'RealInterval': [lambda: RealInterval([1000, 2000])],
+    'IntegerRange': [lambda: IntegerRange([1000, 1003])],
+    'ComplexRectangle': [lambda: ComplexRectangle(re=[1000, 2000], im=[-3000, -2000])],
+    'ComplexSector': [lambda: ComplexSector(modulus=[1000, 2000], argument=[2.9, 3.0])],
+    'DiscreteSet': [lambda: DiscreteSet((777.5, 888.5))],
+    'SpecificFunctions': [lambda: SpecificFunctions([np.tan])],
+    'RandomFunction': [lambda: RandomFunction(center=1000, amplitude=1), lambda: RandomFunction(input_dim=3, output_dim=2, center=-1000)],
+    'RealVectors': [lambda: RealVectors(shape=7, norm=[1000, 2000])],
+    'ComplexVectors': [lambda: ComplexVectors(shape=7, norm=[1000, 2000])],
+    'RealMatrices': [lambda: RealMatrices(shape=[5, 6], norm=[1000, 2000])],
+    'ComplexMatrices': [lambda: ComplexMatrices(shape=[5, 6], norm=[1000, 2000])],
+    'RealTensors': [lambda: RealTensors(shape=[2, 2, 5], norm=[1000, 2000])],
+    'ComplexTensors': [lambda: ComplexTensors(shape=[2, 2, 5], norm=[1000, 2000])],
+    'IdentityMatrixMultiples': [lambda: IdentityMatrixMultiples(dimension=6, sampler=[1000, 2000])],
+    'SquareMatrices': [lambda: SquareMatrices(dimension=6, norm=[1000, 2000]),
+                       lambda: SquareMatrices(dimension=3, symmetry='antisymmetric', complex=True, norm=[1000, 2000])],
+}
+
+
+def rivals_then_seed(sampler, seed, rec):
+    for make in RIVALS.get(type(sampler).__name__, []):
+        r = make()
+        v = r.gen_sample()
+        if callable(v):
+            v(*([0.5] * r.config['input_dim'])) if 'input_dim' in r.config else None
+    rec.note('rival-samplers-built')
+    set_seed(seed)
+
+
 # ---------------------------------------------------------------------------------------------------------
 # small oracles
 
@@ -222,7 +258,7 @@ def judge_scalar(spec, rec):
     s, member, info = build_scalar(sp)
     cls = sp['cls']
     k = K_INT if cls == 'IntegerRange' else spec['k']
-    set_seed(spec['seed'])
+    rivals_then_seed(s, spec['seed'], rec)
     draws = [s.gen_sample() for _ in range(k)]
     rec.calls(k)
     for v in draws:
@@ -336,7 +372,7 @@ def judge_identity(spec, rec):
     if spec.get('norm') is not None:
         kw['norm'] = spec['norm']
     s = IdentityMatrixMultiples(**kw)
-    set_seed(spec['seed'])
+    rivals_then_seed(s, spec['seed'], rec)
     k = spec['k']
     firsts = []
     for _ in range(k):
@@ -409,7 +445,7 @@ def judge_discrete(spec, rec):
         members = members[:1]
     else:
         s = DiscreteSet(tuple(members))
-    set_seed(spec['seed'])
+    rivals_then_seed(s, spec['seed'], rec)
     k = spec['k']
     hit = set()
     for _ in range(k):
@@ -471,7 +507,7 @@ def judge_specfunc(spec, rec):
         s = SpecificFunctions(fs[0])
     else:
         s = SpecificFunctions(list(fs))
-    set_seed(spec['seed'])
+    rivals_then_seed(s, spec['seed'], rec)
     hit = set()
     for _ in range(spec['k']):
         f = s.gen_sample()
@@ -523,7 +559,7 @@ def judge_randfunc(spec, rec):
     if out_dim > 1:
         rec.cls('randfunc/vector-output')
     rec.cls('randfunc/num_terms=%d' % cfg['num_terms'])
-    set_seed(spec['seed'])
+    rivals_then_seed(s, spec['seed'], rec)
     pts = eval_points(spec, in_dim)
     bound = amp * (1 + 1e-9) + 1e-12 * abs(center)
     funcs, first_vals = [], None
@@ -662,7 +698,7 @@ def judge_array(spec, rec):
     if spec.get('say_complex'):
         kw['complex'] = cx          # stating the only allowed value explicitly is documented as legal
     s = C(**kw)
-    set_seed(spec['seed'])
+    rivals_then_seed(s, spec['seed'], rec)
     what = '%s(%s)' % (spec['cls'], ', '.join('%s=%r' % kv for kv in sorted(kw.items())))
     first = None
     varied = False
@@ -824,7 +860,7 @@ def judge_square(spec, rec):
         raise Violation('existence/accepted-unsupported', '%s was accepted, but the documentation says: %s' % (
             what, reason))
     cplx = cx or sym in ('hermitian', 'antihermitian')
-    set_seed(spec['seed'])
+    rivals_then_seed(s, spec['seed'], rec)
     first, varied = None, False
     for _ in range(spec['k']):
         m = s.gen_sample()
